@@ -33,13 +33,18 @@ type replayFile struct {
 }
 
 var (
-	rf  replayRun
-	pos int
+	rf     replayRun
+	pos    int
+	failed bool
 )
 
 type stop struct{ why string }
 
 func next(label, kind string) draw {
+	if pos >= len(rf.Draws) && failed {
+		// the executor ends a path at an assertion that cannot hold; the recorded draws end there too
+		panic(stop{"recorded draws end after a failed assertion"})
+	}
 	if pos >= len(rf.Draws) {
 		fmt.Printf("VF-DRAW-MISMATCH exhausted at %s/%s\n", label, kind)
 		panic(stop{"draws exhausted"})
@@ -117,6 +122,7 @@ func Assume(c bool) {
 // Assert states the property; the executor asks the solver for inputs that falsify it.
 func Assert(c bool, label string) {
 	if !c {
+		failed = true
 		fmt.Printf("VF-ASSERT-FAIL %s\n", label)
 	}
 }
@@ -187,6 +193,7 @@ func RunReplay(t *testing.T, harnesses map[string]func()) {
 	for _, run := range file.Runs {
 		rf = run
 		pos = 0
+		failed = false
 		h := harnesses[rf.Harness]
 		if h == nil {
 			t.Fatalf("unknown harness %q", rf.Harness)
